@@ -199,6 +199,9 @@ static std::string run_once(const RunCfg &c, Rng &r) {
   int last_pick = -1;
   static const double sticks[] = {0.0, 0.8, 0.95, 0.99, 0.99};
   double stick = sticks[r.below(5)];
+  // one run in four procrastinates writers: a process that sits inside WRITE_JOBS (events 20 / 21) is advanced only when nobody else
+  // can move, so that a write stays half done for as long as the protocol lets the other processes run
+  bool stallWriters = r.coin(1, 4);
   while (true) {
     bool any = false;
     for (auto &x : ch) any = any || x.alive;
@@ -217,6 +220,11 @@ static std::string run_once(const RunCfg &c, Rng &r) {
     readable(2);
     ready.clear();
     for (int i = 0; i < c.P; i++) if (ch[i].alive && ch[i].waiting) ready.push_back(i);
+    if (stallWriters) {
+      std::vector<int> others;
+      for (int q : ready) if (ch[q].pending.rfind("H 20", 0) != 0 && ch[q].pending.rfind("H 21", 0) != 0) others.push_back(q);
+      if (!others.empty()) ready = others;
+    }
     int pick = ready[r.below(ready.size())];
     // sticky scheduling: long bursts of one process (a whole synchronisation, or several, while the others stand still)
     if (last_pick >= 0 && r.unit() < stick) for (int q : ready) if (q == last_pick) pick = q;
